@@ -180,10 +180,11 @@ func sameStrs(a, b []string) bool {
 // ---------- the check command ----------
 
 type violationOut struct {
-	Harness string
-	Event   *reportedEvent
-	Replay  string
-	Native  string // reproduced | engine-only | not-reproduced
+	HistoryDependent bool
+	Harness          string
+	Event            *reportedEvent
+	Replay           string
+	Native           string // reproduced | engine-only | not-reproduced
 }
 
 func cmdCheck(args []string) int {
@@ -320,7 +321,7 @@ func cmdCheck(args []string) int {
 					ev := r.events[k]
 					switch {
 					case violationKinds[ev.Kind]:
-						viols = append(viols, violationOut{Harness: hs.Name, Event: ev})
+						viols = append(viols, violationOut{Harness: hs.Name, Event: ev, HistoryDependent: hs.HistoryDependent})
 					default:
 						inconclusive = append(inconclusive, fmt.Sprintf("%s: %s [%s] %s", hs.Name, ev.Kind, ev.Label, ev.What))
 					}
@@ -372,9 +373,15 @@ func cmdCheck(args []string) int {
 		var cases []nativeCase
 		cases = append(cases, allWitness...)
 		base := len(cases)
+		// a counterexample may depend on what the native run cannot be forced into (Go's random map
+		// order, sync.Pool hand-over): it is replayed nativeTries times and counts as reproduced if
+		// any run reproduces it
+		const nativeTries = 30
 		for i, v := range viols {
 			if v.Event.Witness != nil {
-				cases = append(cases, nativeCase{Harness: v.Harness, Idx: base + i, Tier: tierN, Prop: id, Nondet: v.Event.Witness.Nondet})
+				for k := 0; k < nativeTries; k++ {
+					cases = append(cases, nativeCase{Harness: v.Harness, Idx: base + i*nativeTries + k, Tier: tierN, Prop: id, Nondet: v.Event.Witness.Nondet})
+				}
 			}
 		}
 		byPkg := map[string][]nativeCase{}
@@ -414,13 +421,25 @@ func cmdCheck(args []string) int {
 		}
 		for i := range viols {
 			v := &viols[i]
-			r, ok := results[base+i]
+			r, ok := results[base+i*nativeTries]
+			for k := 0; k < nativeTries; k++ {
+				if rk, okk := results[base+i*nativeTries+k]; okk {
+					if (v.Event.Kind == "violation" && contains(rk.Failed, v.Event.Label)) || (v.Event.Kind == "panic" && strings.HasPrefix(rk.Outcome, "panic:")) {
+						r, ok = rk, true
+						break
+					}
+				}
+			}
 			switch {
 			case v.Event.Witness == nil || !ok:
 				v.Native = "engine-only"
 			case v.Event.Kind == "violation":
 				if contains(r.Failed, v.Event.Label) {
 					v.Native = "reproduced"
+				} else if hasEngineChoice(v.Event.Witness) || v.HistoryDependent {
+					// the counterexample depends on a schedule / map order / stale pool state chosen by the
+					// solver, which a native run cannot be forced into: reported as engine-level
+					v.Native = "engine-only"
 				} else {
 					v.Native = "not-reproduced"
 				}
@@ -503,19 +522,19 @@ func cmdCheck(args []string) int {
 		"property_id": id, "tier": *tier, "seed": defaultCfg(*tier).seed, "level": "model_checking",
 		"coverage": map[string]interface{}{
 			"states": states, "transitions": transitions, "traces_validated_against_impl": validated, "samples": samples,
-			"explanation":      "bounded symbolic execution of the real go/ssa of /repo (regenerated on this run); states = symbolic paths explored, transitions = SSA instructions executed symbolically; every obligation is a solver query pc ∧ ¬assertion",
-			"obligations":      totalObl,
-			"discharged":       totalDischarged,
-			"harnesses":        sums,
-			"functions_encoded": fnames,
-			"intrinsics_used":  externsAll,
-			"stubs_used":       stubsAll,
-			"solver":           solver,
+			"explanation":               "bounded symbolic execution of the real go/ssa of /repo (regenerated on this run); states = symbolic paths explored, transitions = SSA instructions executed symbolically; every obligation is a solver query pc ∧ ¬assertion",
+			"obligations":               totalObl,
+			"discharged":                totalDischarged,
+			"harnesses":                 sums,
+			"functions_encoded":         fnames,
+			"intrinsics_used":           externsAll,
+			"stubs_used":                stubsAll,
+			"solver":                    solver,
 			"known_findings_reproduced": kfNotes,
-			"inconclusive":     inconclusive,
-			"native_replay":    nativeNote,
-			"outside_the_claim": prop.Outside,
-			"load_seconds":     l.loadSecs,
+			"inconclusive":              inconclusive,
+			"native_replay":             nativeNote,
+			"outside_the_claim":         prop.Outside,
+			"load_seconds":              l.loadSecs,
 		},
 		"assumptions": assumptions,
 		"wall_s":      time.Since(t0).Seconds(),
@@ -529,6 +548,19 @@ func cmdCheck(args []string) int {
 	fmt.Printf("property=%s tier=%s harness-passes=%d paths=%d obligations=%d discharged=%d witnesses-replayed=%d violations=%d inconclusive=%d wall=%.1fs exit=%d\n",
 		id, *tier, len(sums), states, totalObl, totalDischarged, validated, reported, len(inconclusive), time.Since(t0).Seconds(), exit)
 	return exit
+}
+
+func hasEngineChoice(w *witness) bool {
+	if w == nil {
+		return false
+	}
+	for _, n := range w.Nondet {
+		switch n.Kind {
+		case "sched", "perm", "stale":
+			return true
+		}
+	}
+	return false
 }
 
 func contains(xs []string, x string) bool {
